@@ -45,7 +45,7 @@ Definition ok_by_id (id : Z) (c o : sx) : Z :=
   | 6 => b2z (Incremental.ok_sx c o)
   | 7 => b2z (ReteAgenda.ok_sx c o)
   | 8 => b2z (Tms.ok_sx c o)
-  | 9 => b2z (Backward.ok_sx c o)
+  | 9 => if Backward.ok_sx c o then (if Backward.hyps_sx c then 1 else -2) else 0
   | 11 => b2z (Backward.ok_sx c o)
   | 10 => match c with L [A 1; bc] => b2z (Backward.ok_sx_c10 bc o) | _ => b2z (Undo.ok_sx c o) end
   | 12 => match c with L (A 3 :: _) => b2z (StreamAlpha.ok_sx c o) | _ => b2z (Window.ok_sx c o) end
